@@ -170,6 +170,16 @@ def module_states(name, tier, nseeds=None, with_short=True, with_synth=True):
             transitions += 1
             if x not in states:
                 states[x] = (1, 'synth:run', '')
+        if name in ('stdnum.eu.vat', 'stdnum.vatin'):
+            # dispatchers: a documented number of every constituent under its own code (27 states + XI + EL alias)
+            from .checks import c09
+            for cc, mn in sorted(c09.EU.items()):
+                for s_, v_ in seedmod.seeds('stdnum.' + mn, 2):
+                    bare = v_[2:] if v_.upper().startswith(cc) else v_
+                    for x in (cc + bare, cc + ' ' + bare, cc.lower() + bare):
+                        transitions += 1
+                        if x not in states:
+                            states[x] = (1, 'synth:dispatch', '')
         for x in synth.literal_inputs(name, m, sv, limit=800 if quick else 3000):
             transitions += 1
             if x not in states:
